@@ -80,17 +80,31 @@ inductive Stan
   | brokenSummary         -- `<span class="undocumented">Broken summary</span>`
   | noSummary             -- `<span class="undocumented">No summary</span>`
   | opaque (n : Nat)      -- whatever a parameter `to_stan` returned
+  | code                  -- `Tag('code')(gettext(doc.to_node()))` of colorized_pyval_fallback
+  | sigBroken             -- the `(...)` of format_signature
   deriving DecidableEq, Repr, Inhabited
 
 /-- a field body: made by the parser, or a `ParsedTypeDocstring` put there by `_processtypes` -/
 inductive Body | user (k : Nat) | typed (k : Nat)
   deriving DecidableEq, Repr, Inhabited
 
+/-- the field tags the wrappers distinguish -/
+inductive FieldTag
+  | plain     -- any tag whose handler just formats the body (`warns`, `note`, …)
+  | rtype     -- `rtype`/`returntype`/`ytype`/`yieldtype`: in ParsedTypeDocstring.FIELDS, formatted
+  | typ       -- `type`: in FIELDS; split by extract_fields; read by get_parsed_type; not formatted for Attributes
+  | ivar      -- `ivar`/`cvar`/`var`: split by extract_fields, `handled_elsewhere` in format_docstring
+  deriving DecidableEq, Repr, Inhabited
+
 structure Field where
-  isType : Bool           -- `field.tag() in ParsedTypeDocstring.FIELDS`
+  tag : FieldTag
+  arg : Option Obj        -- `field.arg()` resolved in the documented object's `contents` (none = no argument)
   body : Body
   lineno : Nat
   deriving DecidableEq, Repr, Inhabited
+
+/-- `field.tag() in ParsedTypeDocstring.FIELDS` -/
+def Field.isType (f : Field) : Bool := f.tag = .rtype || f.tag = .typ
 
 /-- a `ParsedDocstring` -/
 inductive PD
@@ -135,6 +149,12 @@ structure Env where
   mkTyped : Nat → Nat → TypedOut              -- body k, lineno
   walk : PD → WalkOut
   buildToc : PD → Nat → TocOut
+  isAttribute : Obj → Bool                    -- isinstance(obj, model.Attribute)
+  annotation : Obj → Option Nat               -- colorize_inline_pyval(obj.annotation) as ParsedDocstring k
+  constPd : Obj → Nat                         -- colorize_pyval(obj.value, …) as ParsedDocstring k
+  sigOut : Obj → Option StanOut               -- html2stan(str(func.signature)); none = no signature
+  bases : Obj → List Nat                      -- colorize_inline_pyval(base_node) per raw base
+  decorators : Obj → List Nat                 -- colorize_inline_pyval(dec) per displayed decorator
 
 /-! ### state -/
 
@@ -142,6 +162,7 @@ structure ObjSt where
   docstring : Option Text
   parsed : Option PD          -- obj.parsed_docstring
   parsedSummary : Option PD   -- obj.parsed_summary
+  ptype : Option Body         -- obj.parsed_type
   deriving DecidableEq, Repr, Inhabited
 
 /-- one `obj.report('bad <section>: ' + descr, lineno_offset=offset, section=section)` -/
@@ -163,6 +184,9 @@ def setParsed (st : St) (o : Obj) (pd : PD) : St :=
 
 def setSummary (st : St) (o : Obj) (pd : PD) : St :=
   { st with objs := fun x => if x = o then { st.objs o with parsedSummary := some pd } else st.objs x }
+
+def setPType (st : St) (o : Obj) (b : Body) : St :=
+  { st with objs := fun x => if x = o then { st.objs o with ptype := some b } else st.objs x }
 
 inductive Res (α : Type) | ok (a : α) | raises (e : Exc)
   deriving Repr
@@ -397,13 +421,29 @@ structure DocOut where
   fields : List Stan
   deriving DecidableEq, Repr
 
-/-- one `Field.format()` per field, in the order the handlers call it -/
-def formatFields (env : Env) (st : St) (src : Obj) : List Field → List Stan × St
+/-- the `FieldHandler.handle` loop of format_docstring, as far as the wrappers are concerned: one
+`Field.format()` (= `safe_to_stan` with the BROKEN fallback, reported against the source) per field
+whose handler formats it, in call order.  `type` fields: for an Attribute `handle_type` stores the
+body as `obj.parsed_type` and formats nothing; otherwise the body is formatted when the field has
+an argument (`@type name:` in a class/module docstring).  `ivar`/`cvar`/`var`: `handled_elsewhere`.
+(`type` without argument in a Function docstring additionally files a 'Parameter name missing'
+warning through `Field.report`; the dispatch and those warnings are C09's.) -/
+def formatFields (env : Env) (st : St) (obj src : Obj) : List Field → List Stan × St
   | [] => ([], st)
   | f :: fs =>
-    let r := safeToStanOut st (bodyToStan env f.body) src .broken true 0
-    let rs := formatFields env r.2 src fs
-    (r.1 :: rs.1, rs.2)
+    match f.tag with
+    | .ivar => formatFields env st obj src fs
+    | .typ =>
+      if env.isAttribute obj then formatFields env (setPType st obj f.body) obj src fs
+      else if f.arg.isSome then
+        let r := safeToStanOut st (bodyToStan env f.body) src .broken true 0
+        let rs := formatFields env r.2 obj src fs
+        (r.1 :: rs.1, rs.2)
+      else formatFields env st obj src fs
+    | _ =>
+      let r := safeToStanOut st (bodyToStan env f.body) src .broken true 0
+      let rs := formatFields env r.2 obj src fs
+      (r.1 :: rs.1, rs.2)
 
 def formatDocstring (env : Env) (st : St) (obj : Obj) : Res DocOut × St :=
   let r := ensureParsed env st obj
@@ -414,7 +454,7 @@ def formatDocstring (env : Env) (st : St) (obj : Obj) : Res DocOut × St :=
     | none => (.raises .assertion, r.2)       -- assert obj.parsed_docstring is not None
     | some pd =>
       let b := safeToStan env r.2 pd src .docstring true
-      let fs := formatFields env b.2 src (pdFields pd)
+      let fs := formatFields env b.2 obj src (pdFields pd)
       (.ok ⟨b.1, fs.1⟩, fs.2)
 
 /-! ### format_summary -/
@@ -477,14 +517,139 @@ def formatTocOld (env : Env) (st : St) (obj : Obj) : Res (Option Stan) × St :=
         (.ok (some s.1), s.2)
     else (.ok none, r.2)
 
-/-! ### extract_fields (head): parse the object's own docstring and store the result -/
+/-! ### extract_fields: parse the object's own docstring, store it, split the variable fields -/
+
+/-- `field.body()` as the attribute's `parsed_docstring` (field bodies carry no fields of their own) -/
+def bodyPd : Body → PD
+  | .user k => .user k []
+  | .typed k => .user k []      -- not reached: `ivar`/`cvar`/`var` are not in ParsedTypeDocstring.FIELDS
+
+/-- the loop over `parsed_doc.fields`: `ivar/cvar/var` → the named attribute's `parsed_docstring`,
+`type` → its `parsed_type`; a field without argument is skipped ('Missing field name' warning, not
+a reportErrors report).  `arg` is the attribute the name resolves to in `obj.contents` (creation of
+a new Attribute for an unknown name is the registry's business, C02). -/
+def splitFields (st : St) : List Field → St
+  | [] => st
+  | f :: fs =>
+    match f.tag, f.arg with
+    | .typ, some a => splitFields (setPType st a f.body) fs
+    | .ivar, some a => splitFields (setParsed st a (bodyPd f.body)) fs
+    | _, _ => splitFields st fs
 
 def extractFields (env : Env) (st : St) (obj : Obj) : Res Unit × St :=
   match (st.objs obj).docstring with
   | none => (.raises .assertion, st)          -- assert doc is not None, obj
   | some d =>
     let r := parseDocstring env st obj d obj
-    (.ok (), setParsed r.2 obj r.1)
+    (.ok (), splitFields (setParsed r.2 obj r.1) (pdFields r.1))
+
+/-! ### get_parsed_type / type2stan / colorized_pyval_fallback and the other pyval wrappers -/
+
+/-- the `for field in fields: if field.tag() == 'type': parsed_type = field.body()` loop: last one wins -/
+def lastTypeField : List Field → Option Body
+  | [] => none
+  | f :: fs =>
+    match lastTypeField fs with
+    | some b => some b
+    | none => if f.tag = .typ then some f.body else none
+
+def annotationBody (env : Env) (obj : Obj) : Option Body := (env.annotation obj).map Body.user
+
+/-- `get_parsed_type` (since 87738b5 it looks into the Attribute's own docstring) -/
+def getParsedType (env : Env) (st : St) (obj : Obj) : Option Body × St :=
+  match (st.objs obj).ptype with
+  | some b => (some b, st)
+  | none =>
+    if env.isAttribute obj then
+      let r := ensureParsed env st obj
+      match (r.2.objs obj).parsed with
+      | none => (annotationBody env obj, r.2)
+      | some pd =>
+        match lastTypeField (pdFields pd) with
+        | some b => (some b, setPType r.2 obj b)
+        | none => (annotationBody env obj, r.2)
+    else (annotationBody env obj, st)
+
+/-- `safe_to_stan(doc, linker, ctx, fallback=colorized_pyval_fallback, section=sec)`:
+the fallback is `Tag('code')(gettext(doc.to_node()))` — `to_node` runs inside the `except` block of
+safe_to_stan with no handler of its own: if it raises, that exception leaves safe_to_stan, and
+nothing is reported. -/
+def safeToStanPyval (env : Env) (st : St) (b : Body) (ctx : Obj) (sec : Sec) : Res Stan × St :=
+  match bodyToStan env b with
+  | .returns s => (.ok s, st)
+  | .raises e =>
+    match bodyToNode env b with
+    | .raises e' => (.raises e', st)
+    | .returns => (.ok .code, reportErrors st ctx [toStanError e] sec)
+
+/-- section numbers of the wrappers (0 = 'docstring') -/
+def secAnnotation : Sec := 1
+def secConstant : Sec := 2
+def secSignature : Sec := 3
+def secClassSignature : Sec := 4
+def secDecorators : Sec := 5
+
+def type2stan (env : Env) (st : St) (obj : Obj) : Res (Option Stan) × St :=
+  let r := getParsedType env st obj
+  match r.1 with
+  | none => (.ok none, r.2)
+  | some b =>
+    match safeToStanPyval env r.2 b obj secAnnotation with
+    | (.ok s, st') => (.ok (some s), st')
+    | (.raises e, st') => (.raises e, st')
+
+/-- `format_constant_value`: the value row (warnings of the colorizer are filed through
+`reportWarnings`, outside this model) -/
+def formatConstant (env : Env) (st : St) (obj : Obj) : Res Stan × St :=
+  safeToStanPyval env st (.user (env.constPd obj)) obj secConstant
+
+/-- `pages.format_signature`: `html2stan(str(func.signature))` in try/except Exception -/
+def formatSignature (env : Env) (st : St) (obj : Obj) : Res Stan × St :=
+  match env.sigOut obj with
+  | none => (.ok .sigBroken, st)
+  | some (.returns s) => (.ok s, st)
+  | some (.raises e) => (.ok .sigBroken, reportErrors st obj [toStanError e] secSignature)
+
+/-- a `for x in …: safe_to_stan(colorize_inline_pyval(x), …, fallback=colorized_pyval_fallback)` loop:
+`pages.format_class_signature` (bases) and `pages.format_decorators` -/
+def pyvalList (env : Env) (obj : Obj) (sec : Sec) : St → List Nat → Res (List Stan) × St
+  | st, [] => (.ok [], st)
+  | st, k :: ks =>
+    match safeToStanPyval env st (.user k) obj sec with
+    | (.raises e, st') => (.raises e, st')
+    | (.ok s, st') =>
+      match pyvalList env obj sec st' ks with
+      | (.raises e, st'') => (.raises e, st'')
+      | (.ok ss, st'') => (.ok (s :: ss), st'')
+
+def formatClassSignature (env : Env) (st : St) (obj : Obj) : Res (List Stan) × St :=
+  pyvalList env obj secClassSignature st (env.bases obj)
+
+def formatDecorators (env : Env) (st : St) (obj : Obj) : Res (List Stan) × St :=
+  pyvalList env obj secDecorators st (env.decorators obj)
+
+/-! ### templatewriter/search.py `format_docstring` (text for the search index) -/
+
+inductive SearchOut
+  | none                    -- undocumented
+  | nodeText                -- ' '.join(gettext(parsed_docstring.to_node()))
+  | docstring (t : Option Text)  -- `source.docstring`
+  deriving DecidableEq, Repr
+
+/-- `to_node()` is called in `try … except NotImplementedError` only -/
+def searchDocstring (env : Env) (st : St) (obj : Obj) : Res SearchOut × St :=
+  let r := ensureParsed env st obj
+  match r.1 with
+  | none => (.ok .none, r.2)
+  | some src =>
+    match (r.2.objs obj).parsed with
+    | none => (.raises .assertion, r.2)
+    | some pd =>
+      match pdToNode env pd with
+      | .returns => (.ok .nodeText, r.2)
+      | .raises e =>
+        if e = .notImplemented then (.ok (.docstring (r.2.objs src).docstring), r.2)
+        else (.raises e, r.2)
 
 /-! ### running a list of entry-point calls (correspondence, isolation statements) -/
 
@@ -518,6 +683,37 @@ def run (env : Env) : St → List (Op × Obj) → List Out × St
   | st, (op, o) :: rest =>
     let r := step env st op o
     let rs := run env r.2 rest
+    (r.1 :: rs.1, rs.2)
+
+/-! ### the further rendering entry points, for the correspondence -/
+
+inductive XOp
+  | core (op : Op)
+  | typ | const | sig | classSig | decorators | search
+  deriving DecidableEq, Repr
+
+inductive XOut
+  | core (o : Out)
+  | typ (r : Res (Option Stan))
+  | stan (r : Res Stan)
+  | stans (r : Res (List Stan))
+  | search (r : Res SearchOut)
+
+def xstep (env : Env) (st : St) (op : XOp) (obj : Obj) : XOut × St :=
+  match op with
+  | .core o => let r := step env st o obj; (.core r.1, r.2)
+  | .typ => let r := type2stan env st obj; (.typ r.1, r.2)
+  | .const => let r := formatConstant env st obj; (.stan r.1, r.2)
+  | .sig => let r := formatSignature env st obj; (.stan r.1, r.2)
+  | .classSig => let r := formatClassSignature env st obj; (.stans r.1, r.2)
+  | .decorators => let r := formatDecorators env st obj; (.stans r.1, r.2)
+  | .search => let r := searchDocstring env st obj; (.search r.1, r.2)
+
+def xrun (env : Env) : St → List (XOp × Obj) → List XOut × St
+  | st, [] => ([], st)
+  | st, (op, o) :: rest =>
+    let r := xstep env st op o
+    let rs := xrun env r.2 rest
     (r.1 :: rs.1, rs.2)
 
 /-- the object `reportErrors` / the fallbacks are applied to when `obj` is processed -/
